@@ -527,7 +527,9 @@ impl<'a> Nh<'a> {
             s = win!(self, "Set::from(array)", Set::from(arr));
         }
         let mut t: Set<K, M> = Set::new();
-        for i in 0..rng.usize_below(M + 1) {
+        // operands beyond 64 elements are nearly full half of the time (a random length rarely gets there)
+        let tl = if M > 64 && rng.chance(1, 2) { M - rng.usize_below(4) } else { rng.usize_below(M + 1) };
+        for i in 0..tl {
             t.insert(K::mk(1 + (i as u32 * 2) % (M as u32 + 1)));
         }
         let mut model: Vec<u32> = s.iter().map(|k| k.class()).collect();
